@@ -3,6 +3,16 @@
 import json
 
 CLAIMED = {
+    "C01": dict(
+        text="Lean 4: Props/C01.lean proves refinement for the propagation state machine (Model/Heap.lean: cells = (graph term, optional eager value); transitions = input creation, any @eager_propagate primitive, copy, in-place _set): for every program of any length, every input tuple and every subset S of inputs traced as placeholders, if eager evaluation succeeds the traced run succeeds and every traced cell denotes, under the environment binding the placeholders to the inputs, exactly the value eager evaluation reports (refinement_general / refinement_partial, by a simulation proved by induction over histories for arbitrary value types and operator semantics). The tie: random multi-step programs over ~90 public operations (all dtypes incl. nullable/string, ranks 0-3, extents 0-3, broadcasting, guard-directed single-element constants for the value-dependent shortcuts) are evaluated eagerly and traced with subsets of inputs lazy (static/symbolic/unknown dims), exported, run in onnxruntime and compared step by step; the heap model itself is tied to _CoreArray/_propagation by the history correspondence of the C07 check.",
+        note="Trusted: Lean kernel; the state-machine model of _propagation.py/_corearray.py (tied by flag-level history correspondence, not proved about the Python source); onnxruntime evaluating a one-node session and a full model identically (runtime behaviour, exercised only). The Python-level value-dependent shortcuts (where, logical_and/or, all/any) are outside the theorem (named _partial) and covered by the guard-directed correspondence runs; one of them is a recorded finding.",
+        technique="Lean 4 proof: simulation/refinement by induction over operation histories + eager-vs-traced correspondence",
+        design_ref="§7 C01"),
+    "C07": dict(
+        text="Lean 4: Props/C07.lean proves over every history of the propagation state machine, with and without onnxruntime: soundness (a reported value is what the cell's graph term denotes under every placeholder assignment), taint (a cell reporting a value is a Constant and mentions no placeholder), completeness (with onnxruntime, a primitive on data-holding cells yields a data-holding Constant; a history without placeholders leaves every cell data-holding and Constant). The tie: (1) random histories over real _CoreArrays and real opset primitives vs the Lean state machine, value/Constant flags compared cell by cell; (2) random programs with every proper subset of inputs lazy: completeness and export-is-constants for steps whose dependencies hold data, soundness of every reported value against the exported model under two different placeholder assignments, reported shape = value shape.",
+        note="Trusted: Lean kernel; the model of the wrapper (tied by the history correspondence every run); kernel failures during propagation (missing onnxruntime kernels) are runtime behaviour found only by the correspondence.",
+        technique="Lean 4 proof: heap invariants (Closed/Sound) by induction over histories + state-machine correspondence on real core arrays",
+        design_ref="§7 C07"),
     "C03": dict(
         text="Lean 4: Props/C03.lean proves, for every one of the 24 dtypes (mem_all), that the closed-form promotion model is commutative, associative inside the standard's lattice (errors included), idempotent, nullable iff an operand is, string-isolated, scalar-stable, and that the reference law for comparisons/predicates is boolean. The tie is regenerated every run: result_type on all 576 pairs, promote() on all dtype x Python-scalar rows and the ~24k-row element-wise function x dtype-tuple outcome matrix are dumped from the running implementation into lean/Gen/*.lean and the Lean kernel re-checks (decide +kernel) the laws directly on the dumped tables, their equality with the model, and every matrix row against the reference law Ndx.fnLaw; all 13 824 n-ary triples, where() and 25 further functions are compared through the model driver.",
         note="Trusted: Lean kernel (propext, Classical.choice, Quot.sound); the dumper harness/tables.py (enumerates the finite spaces by calling the public API on lazy and eager arrays); the reference law Ndx.fnLaw and closed-form NumPy promotion as my reading of the Array API / NumPy (validated against numpy.result_type through the implementation's own table). Shape/laziness independence is exercised on sampled ranks and eager values, not proved about the Python code.",
